@@ -478,140 +478,329 @@ func (it *Interp) doAppend(a0, a1 Value) Value {
 	return nil
 }
 
-// tryMerge evaluates a side-effect-free diamond/triangle below an If on both sides and joins the
-// results with ite instead of forking the path.
+// tryMerge: region merging. Starting at an If with a symbolic condition, the maximal acyclic
+// region of side-effect-free blocks below it is evaluated once on all its paths; every value is
+// guarded by the condition of the edges that lead to it. Execution continues (forking only if more
+// than one is feasible) at one of the "frontier" blocks that end the region, with the phis of that
+// block computed as ite over the guards of the incoming region edges.
+func pureInstr(ins ssa.Instruction) bool {
+	switch v := ins.(type) {
+	case *ssa.Jump, *ssa.DebugRef, *ssa.If:
+		return true
+	case *ssa.Phi:
+		_, _, ok := intInfo(v.Type())
+		return ok
+	case *ssa.BinOp:
+		if v.Op == token.QUO || v.Op == token.REM {
+			return false
+		}
+		_, _, ok := intInfo(v.X.Type())
+		return ok
+	case *ssa.Convert:
+		_, _, ok1 := intInfo(v.Type())
+		_, _, ok2 := intInfo(v.X.Type())
+		return ok1 && ok2
+	case *ssa.UnOp:
+		if v.Op == token.MUL || v.Op == token.ARROW {
+			return false
+		}
+		_, _, ok := intInfo(v.Type())
+		return ok
+	case *ssa.ChangeType:
+		_, _, ok := intInfo(v.Type())
+		return ok
+	}
+	return false
+}
+
+type regionInfo struct {
+	ok       bool
+	order    []*ssa.BasicBlock // pure blocks in topological order
+	frontier []*ssa.BasicBlock
+}
+
+func (it *Interp) regionOf(in *ssa.If) *regionInfo {
+	if r, ok := it.regions[in]; ok {
+		return r
+	}
+	r := &regionInfo{}
+	it.regions[in] = r
+	b := in.Block()
+	pure := func(x *ssa.BasicBlock) bool {
+		for _, ins := range x.Instrs {
+			if !pureInstr(ins) {
+				return false
+			}
+		}
+		_, isIf := x.Instrs[len(x.Instrs)-1].(*ssa.If)
+		_, isJmp := x.Instrs[len(x.Instrs)-1].(*ssa.Jump)
+		return isIf || isJmp
+	}
+	state := map[*ssa.BasicBlock]int{} // 1 on stack, 2 done
+	inFrontier := map[*ssa.BasicBlock]bool{}
+	var post []*ssa.BasicBlock
+	abort := false
+	var visit func(x *ssa.BasicBlock)
+	visit = func(x *ssa.BasicBlock) {
+		if abort {
+			return
+		}
+		if x == b || state[x] == 1 {
+			abort = true // cycle
+			return
+		}
+		if state[x] == 2 || inFrontier[x] {
+			return
+		}
+		if !pure(x) {
+			inFrontier[x] = true
+			r.frontier = append(r.frontier, x)
+			return
+		}
+		// a pure block entered from outside the region (other than via b) is fine, but a pure
+		// loop header is not: cycles are detected by the stack check
+		state[x] = 1
+		for _, s := range x.Succs {
+			visit(s)
+		}
+		state[x] = 2
+		post = append(post, x)
+		if len(post) > 24 {
+			abort = true
+		}
+	}
+	for _, s := range b.Succs {
+		visit(s)
+	}
+	if abort || len(post) == 0 || len(r.frontier) > 4 || len(r.frontier) == 0 {
+		return r
+	}
+	for i := len(post) - 1; i >= 0; i-- {
+		r.order = append(r.order, post[i])
+	}
+	r.ok = true
+	return r
+}
+
+type edgeIn struct {
+	pred  *ssa.BasicBlock
+	guard *Term
+}
+
 func (it *Interp) tryMerge(fr *frame, in *ssa.If, cond *Term) bool {
 	if it.cfg.noMerge {
 		return false
 	}
+	r := it.regionOf(in)
+	if !r.ok {
+		return false
+	}
+	c := it.ctx
 	b := in.Block()
-	tb, fb := b.Succs[0], b.Succs[1]
-	var join *ssa.BasicBlock
-	pureArm := func(x *ssa.BasicBlock) bool {
-		if len(x.Preds) != 1 || len(x.Succs) != 1 {
-			return false
+	incoming := map[*ssa.BasicBlock][]edgeIn{}
+	add := func(from, to *ssa.BasicBlock, g *Term) {
+		if g.IsFalse() {
+			return
 		}
-		for _, ins := range x.Instrs {
-			switch v := ins.(type) {
-			case *ssa.Jump, *ssa.DebugRef:
-			case *ssa.BinOp:
-				if v.Op == token.QUO || v.Op == token.REM {
-					return false
+		incoming[to] = append(incoming[to], edgeIn{from, g})
+	}
+	add(b, b.Succs[0], cond)
+	add(b, b.Succs[1], c.Not(cond))
+	phiVal := func(p *ssa.Phi, ins []edgeIn) (Value, bool) {
+		var res Value
+		blk := p.Block()
+		for k := len(ins) - 1; k >= 0; k-- {
+			e := ins[k]
+			var v Value
+			found := false
+			for i, pred := range blk.Preds {
+				if pred == e.pred {
+					v = it.get(fr, p.Edges[i])
+					found = true
+					break
 				}
-				if _, _, ok := intInfo(v.X.Type()); !ok {
-					return false
-				}
-			case *ssa.Convert:
-				if _, _, ok := intInfo(v.Type()); !ok {
-					return false
-				}
-				if _, _, ok := intInfo(v.X.Type()); !ok {
-					return false
-				}
-			case *ssa.UnOp:
-				if v.Op == token.MUL || v.Op == token.ARROW {
-					return false
-				}
-			case *ssa.ChangeType:
-				if _, _, ok := intInfo(v.Type()); !ok {
-					return false
-				}
-			default:
+			}
+			if !found {
+				return nil, false
+			}
+			if res == nil {
+				res = v
+				continue
+			}
+			tv, ok1 := v.(*Term)
+			tr, ok2 := res.(*Term)
+			if !ok1 || !ok2 {
+				return nil, false
+			}
+			res = c.Ite(e.guard, tv, tr)
+		}
+		if it.cfg.canon8 {
+			if t, ok := res.(*Term); ok {
+				res = c.Canon8(t)
+			}
+		}
+		return res, res != nil
+	}
+	for _, x := range r.order {
+		ins := incoming[x]
+		if len(ins) == 0 {
+			continue // unreachable on this path
+		}
+		gx := c.False
+		for _, e := range ins {
+			gx = c.Or(gx, e.guard)
+		}
+		// phis in parallel
+		var pv []Value
+		var ps []*ssa.Phi
+		for _, instr := range x.Instrs {
+			p, ok := instr.(*ssa.Phi)
+			if !ok {
+				break
+			}
+			v, ok := phiVal(p, ins)
+			if !ok {
 				return false
 			}
+			pv = append(pv, v)
+			ps = append(ps, p)
+		}
+		for i, p := range ps {
+			fr.env[p] = pv[i]
+		}
+		for _, instr := range x.Instrs[len(ps):] {
+			switch v := instr.(type) {
+			case *ssa.BinOp:
+				fr.env[v] = it.canon(it.binop(v.Op, v.X.Type(), it.get(fr, v.X), it.get(fr, v.Y)))
+			case *ssa.Convert:
+				fr.env[v] = it.canon(it.conv(v.Type(), v.X.Type(), it.get(fr, v.X)))
+			case *ssa.UnOp:
+				fr.env[v] = it.unop(fr, v)
+			case *ssa.ChangeType:
+				fr.env[v] = it.get(fr, v.X)
+			case *ssa.If:
+				cv, ok := it.get(fr, v.Cond).(*Term)
+				if !ok {
+					return false
+				}
+				add(x, x.Succs[0], c.And(gx, cv))
+				add(x, x.Succs[1], c.And(gx, c.Not(cv)))
+			case *ssa.Jump:
+				add(x, x.Succs[0], gx)
+			}
+		}
+	}
+	// pre-compute the phis of every reachable frontier block (abort before any decision is taken)
+	type entry struct {
+		blk   *ssa.BasicBlock
+		guard *Term
+		phis  []*ssa.Phi
+		vals  []Value
+		pred  *ssa.BasicBlock
+	}
+	var entries []entry
+	for _, f := range r.frontier {
+		ins := incoming[f]
+		if len(ins) == 0 {
+			continue
+		}
+		e := entry{blk: f, guard: c.False, pred: ins[0].pred}
+		for _, x := range ins {
+			e.guard = c.Or(e.guard, x.guard)
+		}
+		for _, instr := range f.Instrs {
+			p, ok := instr.(*ssa.Phi)
+			if !ok {
+				break
+			}
+			var v Value
+			if len(ins) == 1 {
+				for i, pred := range f.Preds {
+					if pred == ins[0].pred {
+						v = it.get(fr, p.Edges[i])
+					}
+				}
+			} else {
+				// identical values on all edges need no ite
+				var first Value
+				same := true
+				for k, x := range ins {
+					for i, pred := range f.Preds {
+						if pred == x.pred {
+							vv := it.get(fr, p.Edges[i])
+							if k == 0 {
+								first = vv
+							} else if !sameValue(first, vv) {
+								same = false
+							}
+						}
+					}
+				}
+				if same {
+					v = first
+				} else {
+					var ok2 bool
+					v, ok2 = phiVal(p, ins)
+					if !ok2 {
+						return false
+					}
+				}
+			}
+			if it.cfg.canon8 {
+				// values on inputs that cannot reach this block are don't-cares: normalise them to 0
+				if tv, ok := v.(*Term); ok && tv.w > 0 && tv.w <= 64 {
+					v = c.Canon8(c.Ite(e.guard, tv, c.BV(0, tv.w)))
+				}
+			}
+			e.phis = append(e.phis, p)
+			e.vals = append(e.vals, v)
+		}
+		entries = append(entries, e)
+	}
+	if len(entries) == 0 {
+		return false
+	}
+	it.nMerged++
+	for i, e := range entries {
+		if i < len(entries)-1 && !it.branch(e.guard) {
+			continue
+		}
+		for k, p := range e.phis {
+			fr.env[p] = e.vals[k]
+		}
+		fr.prev = e.pred
+		fr.block = e.blk
+		fr.skipPhis = len(e.phis)
+		if len(e.phis) == 0 {
+			fr.skipPhis = -1
 		}
 		return true
 	}
-	tArm, fArm := false, false
-	switch {
-	case pureArm(tb) && pureArm(fb) && tb.Succs[0] == fb.Succs[0]:
-		join, tArm, fArm = tb.Succs[0], true, true
-	case pureArm(tb) && tb.Succs[0] == fb:
-		join, tArm = fb, true
-	case pureArm(fb) && fb.Succs[0] == tb:
-		join, fArm = tb, true
-	default:
-		return false
+	return false
+}
+
+func (it *Interp) canon(v Value) Value {
+	if !it.cfg.canon8 {
+		return v
 	}
-	// the join block must only be entered from these edges for the phis we handle
-	evalArm := func(x *ssa.BasicBlock) map[ssa.Value]Value {
-		saved := map[ssa.Value]Value{}
-		for _, ins := range x.Instrs {
-			switch v := ins.(type) {
-			case *ssa.BinOp:
-				saved[v] = it.binop(v.Op, v.X.Type(), it.get(fr, v.X), it.get(fr, v.Y))
-				fr.env[v] = saved[v]
-			case *ssa.Convert:
-				saved[v] = it.conv(v.Type(), v.X.Type(), it.get(fr, v.X))
-				fr.env[v] = saved[v]
-			case *ssa.UnOp:
-				saved[v] = it.unop(fr, v)
-				fr.env[v] = saved[v]
-			case *ssa.ChangeType:
-				saved[v] = it.get(fr, v.X)
-				fr.env[v] = saved[v]
-			}
-		}
-		return saved
+	if t, ok := v.(*Term); ok {
+		return it.ctx.Canon8(t)
 	}
-	// phis of join: all must be scalar terms
-	var phis []*ssa.Phi
-	for _, ins := range join.Instrs {
-		if p, ok := ins.(*ssa.Phi); ok {
-			if _, _, ok := intInfo(p.Type()); !ok {
-				return false
-			}
-			phis = append(phis, p)
-		} else {
-			break
-		}
+	return v
+}
+
+func sameValue(a, b Value) bool {
+	switch x := a.(type) {
+	case *Term:
+		y, ok := b.(*Term)
+		return ok && x == y
+	case Ptr:
+		y, ok := b.(Ptr)
+		return ok && x.P == y.P
+	case nil:
+		return b == nil
 	}
-	if tArm {
-		evalArm(tb)
-	}
-	if fArm {
-		evalArm(fb)
-	}
-	tPred, fPred := b, b
-	if tArm {
-		tPred = tb
-	}
-	if fArm {
-		fPred = fb
-	}
-	vals := make([]Value, len(phis))
-	for k, p := range phis {
-		var tv, fv *Term
-		for i, pred := range join.Preds {
-			if pred == tPred {
-				x, ok := it.get(fr, p.Edges[i]).(*Term)
-				if !ok {
-					return false
-				}
-				tv = x
-			}
-			if pred == fPred {
-				x, ok := it.get(fr, p.Edges[i]).(*Term)
-				if !ok {
-					return false
-				}
-				fv = x
-			}
-		}
-		if tv == nil || fv == nil {
-			return false
-		}
-		vals[k] = it.ctx.Ite(cond, tv, fv)
-	}
-	for k, p := range phis {
-		fr.env[p] = vals[k]
-	}
-	it.nMerged++
-	// enter join, skipping its phis
-	fr.prev = tPred
-	fr.block = join
-	fr.skipPhis = len(phis)
-	return true
+	return false
 }
 
 func fmtVal(v Value) string { return fmt.Sprintf("%T", v) }
